@@ -183,6 +183,19 @@ class SymUFloat:
     def __pos__(self):
         return self
 
+    def __pow__(self, k):
+        # first-order propagation through an integer power: n**k, |k * n**(k-1)| * s
+        kk = k.c if hasattr(k, "c") and getattr(k, "c", None) is not None else k
+        try:
+            ki = int(kk)
+        except Exception:  # noqa: BLE001
+            ki = None
+        if ki is None or ki != kk or ki < 0:
+            raise _eng.Concretized("only non-negative integer powers of an uncertain value are inside the affine model")
+        if ki == 0:
+            return SymUFloat(self.n**0, self.s * 0)
+        return SymUFloat(self.n**ki, abs(ki * self.n ** (ki - 1)) * self.s)
+
     def __abs__(self):
         return SymUFloat(abs(self.n), self.s)
 
